@@ -31,6 +31,7 @@ type vSrvBackend struct {
 	ACLResolverBackend
 	tokens   map[string]*structs.ACLToken
 	policies map[string]*structs.ACLPolicy
+	roles    map[string]*structs.ACLRole
 }
 
 func (b *vSrvBackend) ResolveIdentityFromToken(token string) (bool, structs.ACLIdentity, error) {
@@ -48,6 +49,9 @@ func (b *vSrvBackend) ResolvePolicyFromID(id string) (bool, *structs.ACLPolicy, 
 }
 
 func (b *vSrvBackend) ResolveRoleFromID(id string) (bool, *structs.ACLRole, error) {
+	if r, ok := b.roles[id]; ok {
+		return true, r, nil
+	}
 	return true, nil, acl.ErrNotFound
 }
 
@@ -74,6 +78,7 @@ func vPartialServer(aclsOn bool) (*Server, *vSrvBackend) {
 		shutdownCh: make(chan struct{})}
 	be := &vSrvBackend{tokens: map[string]*structs.ACLToken{}, policies: map[string]*structs.ACLPolicy{}}
 	if aclsOn {
+		vInstallPolicyParserStub()
 		cfg.ACLsEnabled = true
 		cfg.ACLResolverSettings.ACLsEnabled = true
 		cfg.ACLResolverSettings.ACLDefaultPolicy = "deny"
